@@ -3,6 +3,7 @@
 from __future__ import annotations
 
 import importlib
+import zlib
 import math
 
 import numpy as np
@@ -44,25 +45,72 @@ def dense_solver(y, lam, w):
     return W.solve_float(y, lam, w)
 
 
+# The recorder of the running shard / replay (set by vf.main): the boundary monitor of ``call`` reports through it.
+MONITOR = {"R": None, "pid": None}
+_FILL = 12345
+
+
+def present(y, dtype):
+    """The series in the dtype the kernel's signature names (so NumPy hands the caller's own memory to the gufunc, no
+    casting buffer) and in a memory layout chosen deterministically from the data: contiguous, every second element of a
+    longer buffer, a reversed view, or a column of a 2-d array.  Returns (view, owning buffer, pristine copy, layout)."""
+    a = np.ascontiguousarray(y, dtype=dtype)
+    if a.ndim != 1 or a.size == 0:
+        c = a.copy()
+        return c, c, a, "copy"
+    n = a.size
+    h = zlib.crc32(a.tobytes()) % 4
+    if h == 0:
+        buf = a.copy()
+        return buf, buf, a, "contiguous"
+    if h == 1:
+        buf = np.full(2 * n + 3, _FILL, dtype=dtype)
+        v = buf[1:1 + 2 * n:2]
+        v[:] = a
+        return v, buf, a, "strided"
+    if h == 2:
+        buf = np.full(n + 2, _FILL, dtype=dtype)
+        buf[1:n + 1] = a[::-1]
+        return buf[1:n + 1][::-1], buf, a, "reversed_view"
+    buf = np.full((n, 3), _FILL, dtype=dtype)
+    buf[:, 1] = a
+    return buf[:, 1], buf, a, "column"
+
+
 def call(variant, y, nodata, prm):
-    """Run one real kernel on one series (or a batch, last axis = time).  Returns (band int16, lopt or None)."""
+    """Run one real kernel on one series (or a batch, last axis = time).  Returns (band int16, lopt or None).
+
+    Boundary monitor: the caller's array (and the buffer around it) must be bit-identical after the call."""
     k = K(variant)
-    y = np.asarray(y)
+    v, buf, pristine, layout = present(np.asarray(y), np.int16 if variant == "ws2doptvplc" else np.float64)
+    before = buf.copy()
     if variant == "ws2dgu":
-        return k(y.astype(np.float64), prm["lam"], nodata), None
-    if variant == "ws2dpgu":
-        return k(y.astype(np.float64), prm["lam"], nodata, prm["p"]), None
-    if variant == "ws2doptv":
-        return k(y.astype(np.float64), nodata, np.asarray(prm["llas"], dtype=np.float64))
-    if variant == "ws2doptvp":
-        return k(y.astype(np.float64), nodata, prm["p"], np.asarray(prm["llas"], dtype=np.float64))
-    if variant == "ws2doptvplc":
-        return k(y.astype(np.int16), nodata, prm["p"], prm["lc"])
-    if variant == "ws2dwcv":
-        return k(y.astype(np.float64), nodata, np.asarray(prm["llas"], dtype=np.float64), bool(prm["robust"]))
-    if variant == "ws2dwcvp":
-        return k(y.astype(np.float64), nodata, prm["p"], np.asarray(prm["llas"], dtype=np.float64), bool(prm["robust"]))
-    raise KeyError(variant)
+        res = k(v, prm["lam"], nodata), None
+    elif variant == "ws2dpgu":
+        res = k(v, prm["lam"], nodata, prm["p"]), None
+    elif variant == "ws2doptv":
+        res = k(v, nodata, np.asarray(prm["llas"], dtype=np.float64))
+    elif variant == "ws2doptvp":
+        res = k(v, nodata, prm["p"], np.asarray(prm["llas"], dtype=np.float64))
+    elif variant == "ws2doptvplc":
+        res = k(v, nodata, prm["p"], prm["lc"])
+    elif variant == "ws2dwcv":
+        res = k(v, nodata, np.asarray(prm["llas"], dtype=np.float64), bool(prm["robust"]))
+    elif variant == "ws2dwcvp":
+        res = k(v, nodata, prm["p"], np.asarray(prm["llas"], dtype=np.float64), bool(prm["robust"]))
+    else:
+        raise KeyError(variant)
+    R = MONITOR["R"]
+    if R is not None:
+        R.count(f"input_layout_{layout}")
+        R.count("input_unmodified_checks")
+        if before.tobytes() != buf.tobytes():
+            b0, b1 = before.ravel(), buf.ravel()
+            same = (b0 == b1) | ((b0 != b0) & (b1 != b1))
+            where = np.flatnonzero(~same)
+            R.violation(f"{MONITOR['pid']}:input-mutated", f"{variant}: the caller's input array ({layout} layout) was modified by the call at buffer positions {where[:8].tolist()} (e.g. {b0[where[:3]].tolist()} -> {b1[where[:3]].tolist()})",
+                        {"variant": variant, "y": pristine, "nodata": nodata, **{a: b for a, b in prm.items() if a in ("lam", "p", "llas", "robust", "lc")}})
+    return res
 
 
 def warm(variants):
